@@ -152,25 +152,25 @@ type Violation struct {
 }
 
 type Stats struct {
-	Scenario       string         `json:"scenario"`
-	States         int            `json:"states"`
-	Transitions    int            `json:"transitions"`
-	Blocks         int            `json:"blocks"`
-	Txs            int            `json:"txs"`
-	DepthCompleted int            `json:"depth_completed"`
-	Closed         bool           `json:"closed"`
-	Exhaustive     bool           `json:"exhaustive"`
-	StoppedBy      string         `json:"stopped_by,omitempty"`
-	Replayed       int            `json:"traces_validated_against_impl"`
-	OracleEvals    int            `json:"oracle_evaluations"`
-	Outcomes       map[string]int `json:"outcomes"` // action kind/result histogram
-	Foreign        map[string]int `json:"foreign_discrepancies,omitempty"`
-	DeadStates     int            `json:"dead_states,omitempty"`
-	ConformanceMismatches int     `json:"conformance_mismatches,omitempty"`
-	MaxFrontier    int            `json:"max_frontier"`
-	Samples        [][]string     `json:"-"`
-	WallS          float64        `json:"wall_s"`
-	Actions        []string       `json:"alphabet"`
+	Scenario              string         `json:"scenario"`
+	States                int            `json:"states"`
+	Transitions           int            `json:"transitions"`
+	Blocks                int            `json:"blocks"`
+	Txs                   int            `json:"txs"`
+	DepthCompleted        int            `json:"depth_completed"`
+	Closed                bool           `json:"closed"`
+	Exhaustive            bool           `json:"exhaustive"`
+	StoppedBy             string         `json:"stopped_by,omitempty"`
+	Replayed              int            `json:"traces_validated_against_impl"`
+	OracleEvals           int            `json:"oracle_evaluations"`
+	Outcomes              map[string]int `json:"outcomes"` // action kind/result histogram
+	Foreign               map[string]int `json:"foreign_discrepancies,omitempty"`
+	DeadStates            int            `json:"dead_states,omitempty"`
+	ConformanceMismatches int            `json:"conformance_mismatches,omitempty"`
+	MaxFrontier           int            `json:"max_frontier"`
+	Samples               [][]string     `json:"-"`
+	WallS                 float64        `json:"wall_s"`
+	Actions               []string       `json:"alphabet"`
 }
 
 type Options struct {
@@ -224,7 +224,7 @@ func (s *Scenario) Explore(opt Options) (Stats, []Violation) {
 		opt.ReplayEvery = 1
 	}
 	if opt.MaxViol <= 0 {
-		opt.MaxViol = 40
+		opt.MaxViol = 4000
 	}
 	opt.Budget = ScaleBudget(opt.Budget)
 	st := Stats{Scenario: s.Name, Outcomes: map[string]int{}, Foreign: map[string]int{}}
@@ -234,8 +234,9 @@ func (s *Scenario) Explore(opt Options) (Stats, []Violation) {
 	var viols []Violation
 	perKind := map[string]int{}
 	addViol := func(path []string, d Disc, obs *StepObs) {
-		perKind[d.Kind]++
-		if len(viols) < opt.MaxViol && perKind[d.Kind] <= 4 { // shortest counterexamples first (BFS order); four per kind
+		pk := d.Kind + fmt.Sprint(d.Sig)
+		perKind[pk]++
+		if len(viols) < opt.MaxViol && perKind[pk] <= 400 { // candidates in BFS order (shortest first); Execute keeps the first two per kind that reproduce on fresh replays
 			viols = append(viols, Violation{Property: opt.Property, Scenario: s.Name, Path: path, Disc: d, Step: obs})
 		}
 	}
@@ -430,7 +431,7 @@ func (s *Scenario) Explore(opt Options) (Stats, []Violation) {
 			seen[r.key] = true
 			st.States++
 			newCount++
-			n := &node{path: path, snap: r.snap, m: r.m, aux: r.aux, key: r.key, appHash: r.obs.AppHash, obs: r.obs, dead: r.obs.Diverged || len(r.discs) > 0}
+			n := &node{path: path, snap: r.snap, m: r.m, aux: r.aux, key: r.key, appHash: r.obs.AppHash, obs: r.obs, dead: r.obs.Diverged || divergent(r.discs)}
 			if n.dead {
 				st.DeadStates++
 			}
@@ -520,6 +521,18 @@ func ScaleBudget(d time.Duration) time.Duration {
 		return d * time.Duration(n)
 	}
 	return d
+}
+
+// divergent: a discrepancy normally ends the expansion of a node (implementation and reference model
+// can no longer be compared beyond it). Observations that leave both sides in agreement about the
+// state do not: the spendable-balance rise at an order completion (finding F13) is one.
+func divergent(ds []Disc) bool {
+	for _, d := range ds {
+		if d.Kind != "ent.completion_spendable" {
+			return true
+		}
+	}
+	return false
 }
 
 func cloneAux(a map[string]int) map[string]int {
